@@ -8,7 +8,10 @@ package loadaware
 
 import (
 	"fmt"
+	"strings"
+	"sync"
 	"testing"
+	"time"
 
 	"github.com/koordinator-sh/koordinator/pkg/zzverif/mc"
 )
@@ -20,6 +23,36 @@ type c18HistCfg struct {
 	ops     []c18Round
 	opNames []string
 	depth   int
+
+	// witness limiter: the engine re-executes every reported violation several times (serially); once a key has
+	// c18MaxWitnesses distinct witness histories, further histories violating the same key are only counted.
+	mu        sync.Mutex
+	witnesses map[string]map[string]bool
+}
+
+const c18MaxWitnesses = 6
+
+// report tells whether a violation of key by history hist is handed to the engine (always the same answer for
+// the same history once admitted, so that the engine's confirmation runs reproduce it).
+func (hc *c18HistCfg) report(key, hist string) bool {
+	hc.mu.Lock()
+	defer hc.mu.Unlock()
+	if hc.witnesses == nil {
+		hc.witnesses = map[string]map[string]bool{}
+	}
+	w := hc.witnesses[key]
+	if w == nil {
+		w = map[string]bool{}
+		hc.witnesses[key] = w
+	}
+	if w[hist] {
+		return true
+	}
+	if len(w) >= c18MaxWitnesses {
+		return false
+	}
+	w[hist] = true
+	return true
 }
 
 type c18HistSys struct {
@@ -30,6 +63,7 @@ type c18HistSys struct {
 	cons   [2][]int // reference: consecutive rounds (ending with the last one) above the high threshold, per tier/node
 	lastNo [2][]string
 	res    *mc.Result
+	hist   []byte
 }
 
 func c18NewHistSys(hc *c18HistCfg, res *mc.Result) *c18HistSys {
@@ -47,6 +81,7 @@ func c18NewHistSys(hc *c18HistCfg, res *mc.Result) *c18HistSys {
 func (s *c18HistSys) Apply(op int, check bool) (bool, []mc.Violation) {
 	rd := &s.hc.ops[op]
 	cfg := &s.hc.cfg
+	s.hist = append(s.hist, byte(op))
 	ref := c18Compute(cfg, rd)
 	for t := 0; t < 2; t++ {
 		for i := range rd.Nodes {
@@ -73,12 +108,12 @@ func (s *c18HistSys) Apply(op int, check bool) (bool, []mc.Violation) {
 	st.countInto(s.res.Count)
 	var viol []mc.Violation
 	for _, f := range finds {
-		key := c18Key(s.hc.name, f)
-		if len(f.Clause) >= 23 && f.Clause[:23] == "anomaly-not-consecutive" {
+		key := c18Key("hist", f) // part-independent: the same defect class has one key in every configuration
+		if strings.HasPrefix(f.Clause, "anomaly-not-consecutive") {
 			// class of the witness: what the node looked like in the round that broke the streak
 			for _, c := range calls {
 				t := c18TierNode
-				if f.Clause[len(f.Clause)-4:] == "prod" {
+				if strings.HasSuffix(f.Clause, "prod") {
 					t = c18TierProd
 				}
 				if !c.Unknown && s.cons[t][c.Node] < int(cfg.AnomalyK) {
@@ -90,6 +125,10 @@ func (s *c18HistSys) Apply(op int, check bool) (bool, []mc.Violation) {
 					break
 				}
 			}
+		}
+		if !s.hc.report(key, string(s.hist)) {
+			s.res.Count("violations_not_reported_beyond_witness_limit", 1)
+			continue
 		}
 		viol = append(viol, mc.Violation{Key: key, What: fmt.Sprintf("%s; config {%s}; last snapshot %+v; recorded calls %+v; reference streaks %v", f.What, cfg.String(), rd.Nodes, calls, s.cons)})
 	}
@@ -217,8 +256,13 @@ func c18HistConfigs(env *mc.Env) []*c18HistCfg {
 
 func TestVerifC18Hist(t *testing.T) {
 	env := mc.LoadEnv()
-	for _, hc := range c18HistConfigs(env) {
+	total := env.Budget
+	cfgs := c18HistConfigs(env)
+	for ci, hc := range cfgs {
 		hc := hc
+		// cumulative deadline per configuration, so that a slow machine caps every part a little instead of
+		// starving the last ones
+		env.Budget = time.Duration(int64(total) * int64(ci+1) / int64(len(cfgs)))
 		res := mc.NewResult("C18", hc.name, "bfs")
 		res.Rule = fmt.Sprintf("BFS over all sequences of Balance rounds on one plugin instance; a round is a full 3-node snapshot, alphabet = %d snapshots (per node: L 10%%, M 50%%, H 90%%, P 50%% with prod share 40%%, X no NodeMetric); config {%s}, every Evict fails: %v; states deduplicated by detector states/counters + reference streak counters; the last round of each history is judged call by call", len(hc.ops), hc.cfg.String(), hc.failAll)
 		res.Assumptions = append(append([]string{}, c18Assumptions...),
